@@ -21,6 +21,7 @@ def gen_case(rng, cid, tier):
     idx = 0
     now = T0
     npanic = 0
+    nrev = 0
     maxp = rng.choice([1, 1, 2, 3])
     for k in range(n):
         idx += 1
@@ -28,7 +29,7 @@ def gen_case(rng, cid, tier):
             entries.append({"idx": idx, "kind": "i", "ts": 0, "exp": None, "spec": ""})
             continue
         now += rng.randint(1, 20 * S)
-        kind, exp = "c", None
+        kind, exp, erev = "c", None, 0
         live = sorted(sessions)
         logged = [s for s in live if sessions[s]["nick"] and sessions[s]["user"]]
         r = rng.random()
@@ -37,6 +38,8 @@ def gen_case(rng, cid, tier):
             sessions[idx] = {"nick": False, "user": False}
         elif r < 0.17:
             spec, exp = "G30m", 30 * 60 * S
+            nrev += 1 if rng.random() < 0.8 else 0      # consecutive revision (takes effect) or a duplicate (skipped)
+            erev = nrev
         elif r < 0.21 and len(live) > 1:
             sid = rng.choice(live)
             spec = "D%d bye" % sid
@@ -69,7 +72,7 @@ def gen_case(rng, cid, tier):
                                                    "PING x", "AWAY :gone", "MODE " + ch + " +t", "NAMES " + ch])
             if rng.random() < 0.06 and spec.startswith("I") and " NICK " not in spec and " USER " not in spec:
                 kind = "m"      # already marked in the log
-        entries.append({"idx": idx, "kind": kind, "ts": now, "exp": exp, "spec": spec})
+        entries.append({"idx": idx, "kind": kind, "ts": now, "exp": exp, "rev": erev, "spec": spec})
     if entries[0]["kind"] == "i":
         entries[0] = {"idx": 1, "kind": "c", "ts": T0, "exp": None, "spec": "C"}
     return {"id": cid, "proto": 1 if rng.random() < 0.65 else 0, "entries": entries}
